@@ -35,6 +35,7 @@ type Stream struct {
 
 	maxRead int   // maximum bytes per Read (0 = unlimited)
 	segs    []int // explicit sizes of successive Reads (then maxRead applies)
+	splits  []int // absolute offsets no Read may cross (delivery boundaries)
 
 	writes       int // number of Write calls so far
 	failWriteAt  int // fail the k-th Write (1-based); 0 = never
@@ -71,6 +72,14 @@ func (s *Stream) SetMaxRead(n int) {
 func (s *Stream) SetSegments(segs []int) {
 	s.mu.Lock()
 	s.segs = append([]int(nil), segs...)
+	s.mu.Unlock()
+}
+
+// SetSplits sets absolute stream offsets that no single Read crosses: the
+// transport "delivers" the stream in the chunks between these offsets.
+func (s *Stream) SetSplits(offsets []int) {
+	s.mu.Lock()
+	s.splits = append([]int(nil), offsets...)
 	s.mu.Unlock()
 }
 
@@ -164,6 +173,11 @@ func (s *Stream) Read(p []byte) (int, error) {
 			n := limit - s.rpos
 			if n > len(p) {
 				n = len(p)
+			}
+			for _, sp := range s.splits {
+				if sp > s.rpos && sp < s.rpos+n {
+					n = sp - s.rpos
+				}
 			}
 			if len(s.segs) > 0 {
 				if s.segs[0] < n {
